@@ -34,6 +34,7 @@ type Obligation struct {
 	fv      *FnVC
 	Result  *SolveResult
 	witness *Clause
+	raw     string // complete query text (lemmas)
 }
 
 type heapInfo struct {
